@@ -864,6 +864,27 @@ def c20(run):
                       dict(text=o["text"], region=o["region"]), o["files"])
         remaining = [x for x in remaining if x["text"] != o["text"]]
     for wd in wds: shutil.rmtree(wd, ignore_errors=True)
+
+    # open finding: the arguments of yyless(...) in an action are copied outside the action's own m4 quotes (flex closes them
+    # around the call), where a "]]" of ordinary C - yyless(idx[k[0]]) - is taken for a quote delimiter of the enclosing level
+    def yyless_args(sub):
+        import subprocess, tempfile
+        wd = tempfile.mkdtemp(prefix="yl.", dir=sub.work)
+        lp = os.path.join(wd, "y.l"); cp = os.path.join(wd, "y.c")
+        open(lp, "w").write("%option noyywrap\n%{\n#include <stdio.h>\nstatic int k[2] = {0, 1}, idx[2] = {1, 1};\n%}\n%%\n"
+                            "abc   { yyless(idx[k[0]]); printf(\"less %d\\n\", yyleng); }\n.|\\n  { printf(\"c\\n\"); }\n%%\nint main(void) { yylex(); return 0; }\n")
+        p = subprocess.run([os.path.join(fd, "flex"), "-o", cp, lp], stdout=subprocess.PIPE, stderr=subprocess.PIPE, text=True, timeout=60)
+        sub.note_case(dict(k="yyless-args"))
+        if p.returncode != 0: return        # (a refusal with a diagnostic would be honest)
+        q_ = subprocess.run(["gcc", "-w", "-o", os.path.join(wd, "y"), cp], stdout=subprocess.PIPE, stderr=subprocess.STDOUT, text=True)
+        if q_.returncode != 0:
+            sub.violation("usercode:Verbatim", "action text 'yyless(idx[k[0]]);' does not reach the compiler as written: flex exits 0, the scanner does not compile (%s)"
+                          % q_.stdout[:160].replace("\n", " | "), dict(text="yyless(idx[k[0]])"), [lp])
+            return
+        r = subprocess.run([os.path.join(wd, "y")], input=b"abc", stdout=subprocess.PIPE, timeout=20)
+        if not r.stdout.startswith(b"less 1"):
+            sub.violation("usercode:Verbatim", "action 'yyless(idx[k[0]])' compiled but behaves differently: %r" % r.stdout[:60], dict(text="yyless(idx[k[0]])"), [lp])
+    run.probe("yyless-arg-quotes", yyless_args)
     run.unit("usercode", specifications=len(jobs), observations=len(obs), vocabulary=len(toks), scenario_space=voc["scenarios"])
     run.assumptions += ["hostile text is placed inside C string literals and comments of each region (plus a[a[0]]-style code), so that any byte flex or m4 changes is visible to the running program",
                         "token sequences of length <= 2 over the FlexUserCode vocabulary (pairs sampled in the quick tier, exhaustive in the thorough tier)"]
